@@ -1250,8 +1250,11 @@ class SharedSpaceOperations:
 
     def _find_name_in_subs(self, parent, name, skip_self=False):
         for subspace in self._get_subs(parent, skip_self=skip_self):
-            if name in subspace.namespace:
-                return subspace._namespace.fresh[name]
+            # Not looked up in namespace where global refs hide child spaces
+            for members in (subspace.cells, subspace.own_refs,
+                            subspace.named_spaces):
+                if name in members:
+                    return members[name]
         return None
 
     def _get_space_bases(self, space, skip_self=True):
@@ -1514,16 +1517,12 @@ class SpaceManager(SharedSpaceOperations):
 
     def new_ref(self, space, name, value, refmode):
 
-        other = self._find_name_in_subs(space, name)
-        if other is not None:
-            if not isinstance(other, ReferenceImpl):
-                raise ValueError("Cannot create reference '%s'" % name)
-            elif other not in self.model.global_refs.values():
-                raise ValueError("Cannot create reference '%s'" % name)
+        if self._find_name_in_subs(space, name) is not None:
+            raise ValueError("Cannot create reference '%s'" % name)
 
         self._check_subs_relrefs(space, name, value, refmode)
-        if other is not None:   # Global ref shadowed by the new ref
-            self.model.clear_attr_referrers(other)
+        if name in self.model.global_refs:  # Shadowed by the new ref
+            self.model.clear_attr_referrers(self.model.global_refs[name])
         result = space.on_create_ref(name, value, is_derived=False,
                             refmode=refmode)
 
